@@ -124,6 +124,7 @@ type ScriptFS struct {
 	// flush hook: called when the implementation's Flush sees target
 	flushes []*Inv
 	pendingFlush map[*go9p.SrvReq]bool
+	authErrNext  bool // the authentication callback of the request in flight must refuse
 }
 
 func NewScriptFS(x *Ctx) *ScriptFS {
@@ -237,8 +238,8 @@ func (f *ScriptFS) answer(inv *Inv, variant int) {
 		m = &Msg{Type: Rwalk}
 		for i := range qs {
 			t := uint8(go9p.QTDIR)
-			if i == len(tc.Wname)-1 {
-				t = p.QType
+			if i == n-1 {
+				t = p.QType // the last element reached may be a file, also when the walk stops early
 			}
 			qs[i] = go9p.Qid{Type: t, Version: uint32(i), Path: u + uint64(i)}
 			m.Wqid = append(m.Wqid, Qid{t, uint32(i), u + uint64(i)})
